@@ -117,9 +117,15 @@ def select_case(draw, tier):
     spec = draw(S.configurator_spec(max_items=6))
     ids = ["a", "b", "c", "d", "e", "f", "R1", "R2", "zz"]
     prios = []
-    for _ in range(draw(st.integers(1, 3))):
-        d = draw(st.dictionaries(st.sampled_from(ids), st.sampled_from([1, 2, 3, -1, -2]), max_size=4))
-        prios.append([list(kv) for kv in sorted(d.items())])
+    if draw(st.integers(0, 14)) == 0:
+        # MANY requests in one call (a batch of customer sessions): 64-130 pairwise different dictionaries in a drawn order
+        n = draw(st.sampled_from([64, 65, 66, 100, 130]))
+        combos = [[[i1, v1], [i2, v2]] for i1 in ids[:6] for v1 in (1, 2, -1) for i2 in ids[:6] for v2 in (3, -2) if i1 < i2]
+        prios = list(draw(st.permutations(combos)))[:n]
+    else:
+        for _ in range(draw(st.integers(1, 3))):
+            d = draw(st.dictionaries(st.sampled_from(ids), st.sampled_from([1, 2, 3, -1, -2]), max_size=4))
+            prios.append([list(kv) for kv in sorted(d.items())])
     return {"model": spec, "prios": prios, "solver": draw(st.sampled_from(["marker", "marker", "marker", "exact", "exact", "exact", "none", "raising"])),
             "only_leafs": draw(st.integers(0, 2)) > 0, "direct": draw(st.integers(0, 3)) == 0}
 
